@@ -114,6 +114,8 @@ Expression * ParseExpression::assertTypeUniform(Expression * exp, const Type& ty
 /**
  * Member operator for an element: is the precedence with the highgest priority
  * The member operator could be recursive.
+ * The given expression is owned from here: on failure it is freed with all
+ * members chained so far.
  */
 Expression * ParseExpression::member(Expression * exp)
 {
@@ -141,6 +143,7 @@ Expression * ParseExpression::member(Expression * exp)
   catch (ParseError& pe)
   {
     DBG(DBG_DEBUG, "exception %p at %s line %d\n", &pe, __PRETTY_FUNCTION__, __LINE__);
+    delete exp;
     throw;
   }
   return exp;
@@ -176,14 +179,14 @@ Expression * ParseExpression::element()
       break;
     case TOKEN_LITERALSTR:
       result = new LiteralExpression(Value::parseLiteral(t->text));
-      return member(result);
+      break;
     case TOKEN_KEYWORD:
       if (BuiltinExpression::findKeyword(t->text) != BuiltinExpression::unknown)
       {
         /* found a builtin function */
         p.push(t);
         result = BuiltinExpression::parse(p, ctx);
-        return member(result);
+        break;
       }
       else
       {
@@ -192,14 +195,14 @@ Expression * ParseExpression::element()
         {
           /* found a CTOR of complex */
           result = ComplexCTORExpression::parse(p, ctx, type_id);
-          return member(result);
+          break;
         }
         /* finally it should be a symbol */
         if (p.front()->code == '(')
           result = FunctorExpression::parse(p, ctx, t);
         else
           result = VariableExpression::parse(p, ctx, t);
-        return member(result);
+        break;
       }
     case '(':
     {
@@ -209,7 +212,7 @@ Expression * ParseExpression::element()
       if (t->code != ')')
         throw ParseError(EXC_PARSE_MM_PARENTHESIS, t);
       result->enclosed(true);
-      return member(result);
+      break;
     }
     default:
       throw ParseError(EXC_PARSE_UNEXPECTED_LEX_S, t->text.c_str(), t);
@@ -221,7 +224,8 @@ Expression * ParseExpression::element()
     if (result) delete result;
     throw;
   }
-  return result;
+  /* the ownership of the element is passed on */
+  return member(result);
 }
 
 /**
